@@ -1,10 +1,10 @@
 """
 C12 -- lattice symmetry operators form the right groups; misorientation respects them.
 
-E0 extracts the seven literal tables of symmetry.permutations; E6 checks the
-group axioms and the pairing identities exactly; the construction of
-rotations() and the ROTATIONS cache are matched by shape; the trace formula of
-Umis is compared by E3.
+permutations(s), rotations(s), the ROTATIONS cache and Umis are all evaluated by
+E3 (constants fold exactly in Q(sqrt 3)); E6 checks the group axioms on the
+integer tables; proper-rotation and pairing identities are exact matrix
+identities on the evaluated operators.
 """
 import ast
 from fractions import Fraction
@@ -12,7 +12,7 @@ from fractions import Fraction
 from xfabsa import core, tables, groupalg as ga, numeric as N
 from xfabsa.core import AnalysisError
 from xfabsa.poly import Rat
-from xfabsa.symeval import Evaluator, sym_array, Arr, Opaque, scalar, materialise
+from xfabsa.symeval import Evaluator, sym_array, Arr, Opaque, scalar, materialise, RaiseReached
 
 EXHAUSTIVE = True
 ORDERS = {1: 1, 2: 2, 3: 4, 4: 8, 5: 6, 6: 12, 7: 24}
@@ -33,157 +33,159 @@ B_BASIS = {
 GSTAR_HEX = ((Fraction(4, 3), Fraction(2, 3), 0), (Fraction(2, 3), Fraction(4, 3), 0), (0, 0, 1))
 
 
-def range_guard_ok(fn, param):
-    """`if p < 1 or p > 7: raise ValueError(...)` as first statement"""
-    body = core.body_wo_doc(fn)
-    if not body or not isinstance(body[0], ast.If):
-        return False
-    st = body[0]
-    t = st.test
-    if not (isinstance(t, ast.BoolOp) and isinstance(t.op, ast.Or) and len(t.values) == 2):
-        return False
-    lo = hi = False
-    for c in t.values:
-        if isinstance(c, ast.Compare) and isinstance(c.left, ast.Name) and c.left.id == param and len(c.ops) == 1 \
-                and isinstance(c.comparators[0], ast.Constant):
-            if isinstance(c.ops[0], ast.Lt) and c.comparators[0].value == 1:
-                lo = True
-            if isinstance(c.ops[0], ast.Gt) and c.comparators[0].value == 7:
-                hi = True
-    r = st.body[0] if len(st.body) == 1 else None
-    isval = isinstance(r, ast.Raise) and isinstance(r.exc, ast.Call) and isinstance(r.exc.func, ast.Name) \
-        and r.exc.func.id == "ValueError"
-    return lo and hi and isval and not st.orelse
+def exc_name(r):
+    exc = r.node.exc
+    if isinstance(exc, ast.Call):
+        exc = exc.func
+    return getattr(exc, "id", getattr(exc, "attr", None))
+
+
+def table_of(mod, fname, s_, tmods):
+    """E3 evaluation of permutations(s) / rotations(s) on the constant s -> ('ok', nested list of Rat) | ('raise', name).
+    tools.* / laue.* callees are evaluated in their own module (cell constants fold: cos/sin of multiples of 15 degrees and the
+    inverse of a constant 3x3 matrix are exact in Q(sqrt 2, sqrt 3, pi))."""
+    def ipol(name, args, kwargs, node):
+        for pre, m_ in tmods.items():
+            if name.startswith(pre + "."):
+                return Evaluator(m_, inline=True, branch_policy=N.skip_checks_policy).call_function(name[len(pre) + 1:], args, kwargs)
+        return NotImplemented
+    ev = Evaluator(mod, inline=True, import_policy=ipol, branch_policy=N.skip_checks_policy)
+    try:
+        out = ev.call_function(fname, [Rat.const(s_)])
+    except RaiseReached as r:
+        return "raise", exc_name(r)
+    A = out if isinstance(out, Arr) else materialise(out)
+    if A is None or len(A.shape) != 3 or A.shape[1:] != (3, 3):
+        raise AnalysisError("%s(%d) does not evaluate to an explicit (n,3,3) array" % (fname, s_))
+    return "ok", [[[scalar(x) for x in row] for row in mat] for mat in A.data]
+
+
+def rmul(a, b):
+    return [[sum((a[i][k] * b[k][j] for k in range(3)), Rat.const(0)) for j in range(3)] for i in range(3)]
+
+
+def rT(a):
+    return [[a[j][i] for j in range(3)] for i in range(3)]
+
+
+def req(a, b):
+    return all(a[i][j].equals(b[i][j]) for i in range(3) for j in range(3))
+
+
+def rdet(m):
+    return (m[0][0] * (m[1][1] * m[2][2] - m[1][2] * m[2][1]) - m[0][1] * (m[1][0] * m[2][2] - m[1][2] * m[2][0])
+            + m[0][2] * (m[1][0] * m[2][1] - m[1][1] * m[2][0]))
+
+
+def rmat(t):
+    return [[Rat.const(x) for x in row] for row in t]
+
+
+RI3 = rmat(((1, 0, 0), (0, 1, 0), (0, 0, 1)))
 
 
 def run(ctx):
     from xfabsa import numeric as _N
     _N.alias_rule(ctx, 'C12', ['xfab/symmetry.py'])
-    ctx.rule("perm", "permutations(s): declared size, all slots stored, integer, det +-1, order, no duplicates, closed, identity")
-    ctx.rule("rot", "rotations(s): perm[i].T (signed permutation => proper rotation) or B perm[i]^-1 B^-1 with hexagonal B")
-    ctx.rule("pair", "rot[i] B perm[i] = B on a basis of the conforming B matrices")
-    ctx.rule("cache", "ROTATIONS == [None] + [rotations(i) for i in 1..7]; Umis indexes it by crystal_system")
-    ctx.rule("umis", "Umis: 0.5*sum_ij rot_k[i,j]*(U1'U2)[i,j] - 0.5, arccos(clip(-1,1))*180/pi, column 0 = arange")
+    ctx.rule("perm", "permutations(s) evaluated by E3: integer, det +-1, order, no duplicates, closed, identity; ValueError outside 1..7")
+    ctx.rule("rot", "rotations(s) evaluated by E3 (exact in Q(sqrt 3)): one proper rotation per permutation; ValueError outside 1..7")
+    ctx.rule("pair", "rot[i] B perm[i] = B on a basis of the conforming B matrices (exact)")
+    ctx.rule("cache", "ROTATIONS evaluated by E3 == [None] + [rotations(i) for i in 1..7]; Umis indexes it by crystal_system")
+    ctx.rule("umis", "Umis by E3: column 0 = 0..n-1, column 1 = arccos(clip((tr(U1' U2 rot_k') - 1)/2, -1, 1))*180/pi")
     mod = core.module("xfab/symmetry.py")
     ctx.saw(mod)
+    tmods = {}
+    for local, origin in mod.imports.items():
+        if origin in ("xfab.tools", "xfab.laue"):
+            tmods[origin] = core.module("xfab/%s.py" % origin.split(".")[1])
     pfn = mod.func("permutations"); ctx.saw(mod, pfn)
-    perms = tables.extract_permutations()
-    ctx.floor("permutation tables", len(perms), 7)
-    ctx.check(range_guard_ok(pfn, pfn.args.args[0].arg), "C12:perm:range-guard",
-              "permutations() does not raise ValueError for crystal_system outside 1..7", core.loc(mod, pfn))
+    rfn = mod.func("rotations"); ctx.saw(mod, rfn)
+    # range guards
+    for fname, fn_, key in (("permutations", pfn, "C12:perm:range-guard"), ("rotations", rfn, "C12:rot:range-guard")):
+        outside = [table_of(mod, fname, v, tmods) for v in (0, 8, -1, 9)]
+        ctx.check(all(o == ("raise", "ValueError") for o in outside), key,
+                  "%s() does not raise ValueError for crystal_system outside 1..7 (0, 8, -1, 9 give %s)"
+                  % (fname, [o[0] if o[0] == "ok" else o for o in outside]), core.loc(mod, fn_))
     groups = {}
+    nperm = 0
     for s in range(1, 8):
-        if s not in perms:
-            ctx.fail("C12:perm:%d:present" % s, "no table for crystal system %d" % s, core.loc(mod, pfn))
+        where = core.loc(mod, pfn)
+        kind, tab = table_of(mod, "permutations", s, tmods)
+        if kind != "ok":
+            ctx.fail("C12:perm:%d:present" % s, "permutations(%d) raises %s" % (s, tab), where)
             continue
-        n_decl, mats, line = perms[s]
-        where = "%s:%d" % (mod.rel, line)
-        ok = n_decl == ORDERS[s] and sorted(mats) == list(range(ORDERS[s]))
-        ctx.check(ok, "C12:perm:%d:size" % s, "declared %s matrices, stored slots %s, expected order %d"
-                  % (n_decl, sorted(mats)[:30], ORDERS[s]), where)
+        nperm += 1
+        ok = len(tab) == ORDERS[s]
+        ctx.check(ok, "C12:perm:%d:size" % s, "%d matrices, expected order %d" % (len(tab), ORDERS[s]), where)
         if not ok:
             continue
         P = []
         good = True
-        for i in range(n_decl):
-            m = mats[i]
-            if not ga.is_int_matrix(m):
+        for i, m in enumerate(tab):
+            if not all(x.is_const() and x.const_value().denominator == 1 for r in m for x in r):
                 ctx.fail("C12:perm:%d:entry%d" % (s, i), "perm[%d] is not an integer 3x3 matrix" % i, where)
                 good = False
                 continue
-            m = ga.tup(m)
-            ctx.check(ga.det(m) in (1, -1), "C12:perm:%d:det%d" % (s, i), "perm[%d] has determinant %d" % (i, ga.det(m)), where)
-            P.append(m)
+            mi = tuple(tuple(Fraction(int(x.const_value())) for x in r) for r in m)
+            ctx.check(ga.det(mi) in (1, -1), "C12:perm:%d:det%d" % (s, i), "perm[%d] has determinant %d" % (i, ga.det(mi)), where)
+            P.append(mi)
         if not good:
             continue
         groups[s] = P
-        ctx.check(P[0] == ga.I3 or ga.I3 in P, "C12:perm:%d:identity" % s, "identity missing", where)
+        ctx.check(ga.I3 in P, "C12:perm:%d:identity" % s, "identity missing", where)
         ctx.check(len(set(P)) == len(P), "C12:perm:%d:distinct" % s, "duplicated matrices", where)
         S = set(P)
         notclosed = [(i, j) for i, a in enumerate(P) for j, b in enumerate(P) if ga.mmul(a, b) not in S]
         ctx.check(not notclosed, "C12:perm:%d:closed" % s, "perm[%d].perm[%d] is not in the table" %
                   (notclosed[0] if notclosed else (0, 0)), where,
                   sample={"system": NAMES[s], "order": len(P), "products": len(P) ** 2})
-    # rotations(): structure per arm
-    rfn = mod.func("rotations"); ctx.saw(mod, rfn)
-    param = rfn.args.args[0].arg
-    ctx.check(range_guard_ok(rfn, param), "C12:rot:range-guard",
-              "rotations() does not raise ValueError for crystal_system outside 1..7", core.loc(mod, rfn))
-    arms = {}
-    for st in core.body_wo_doc(rfn):
-        if isinstance(st, ast.If) and isinstance(st.test, ast.Compare) and isinstance(st.test.left, ast.Name) \
-                and st.test.left.id == param and isinstance(st.test.ops[0], ast.Eq) \
-                and isinstance(st.test.comparators[0], ast.Constant):
-            arms[st.test.comparators[0].value] = st
+    ctx.floor("permutation tables", nperm, 7)
+    # rotations(): explicit matrices
+    half, r3 = Rat.const(Fraction(1, 2)), N.ref("sqrt(x)", {"x": Rat.const(3)})
+    zero, one = Rat.const(0), Rat.const(1)
+    # conforming B of a hexagonal cell [a,a,c,90,90,120]: a*(1, 1/2; 0, sqrt3/2) (+) c*
+    HEX_BASIS = [[[one, half, zero], [zero, r3 / 2, zero], [zero, zero, zero]], [[zero, zero, zero], [zero, zero, zero], [zero, zero, one]]]
+    rots = {}
     for s in range(1, 8):
-        if s not in arms:
-            ctx.fail("C12:rot:%d:present" % s, "rotations() has no arm for crystal system %d" % s, core.loc(mod, rfn))
+        where = core.loc(mod, rfn)
+        kind, tab = table_of(mod, "rotations", s, tmods)
+        if kind != "ok":
+            ctx.fail("C12:rot:%d:present" % s, "rotations(%d) raises %s" % (s, tab), where)
             continue
-        st = arms[s]
-        where = core.loc(mod, st)
-        kind = classify_rot_arm(mod, st, param)
+        rots[s] = tab
         P = groups.get(s)
-        if kind is None:
-            raise AnalysisError("rotations(%d): arm has a form the rule cannot read (%s)" % (s, where))
         if P is None:
             continue
-        if kind[0] == "transpose":
-            # proper rotation: every perm is a signed permutation matrix with det +1
-            bad = [i for i, m in enumerate(P) if ga.mmul(ga.transpose(m), m) != ga.I3 or ga.det(m) != 1]
-            ctx.check(not bad, "C12:rot:%d:proper" % s,
-                      "rot[i] = perm[i].T is not a proper rotation for i in %s (perm[i] not orthogonal with det +1)" % bad[:5], where)
-            basis = B_BASIS.get(s)
-            if basis is None:
-                ctx.fail("C12:pair:%d" % s, "rot = perm.T is used for the %s system whose B is not preserved by "
-                         "transposed permutations" % NAMES[s], where)
-            else:
-                badp = [(i, k) for i, m in enumerate(P) for k, Bm in enumerate(basis)
-                        if ga.mmul(ga.transpose(m), ga.mmul(Bm, m)) != Bm]
-                ctx.check(not badp, "C12:pair:%d" % s,
-                          "perm[%d]' . B . perm[%d] != B for basis element %d of the conforming B matrices"
-                          % (badp[0][0] if badp else 0, badp[0][0] if badp else 0, badp[0][1] if badp else 0), where)
-        elif kind[0] == "conjugate":
-            cell, nrot = kind[1], kind[2]
-            okcell = (len(cell) == 6 and cell[0] == cell[1] and cell[0] > 0 and cell[2] > 0
-                      and cell[3] == 90 and cell[4] == 90 and cell[5] == 120)
-            ctx.check(okcell, "C12:rot:%d:cell" % s, "B is formed from %s, not a hexagonal cell [a,a,c,90,90,120]" % (cell,), where)
-            ctx.check(nrot == len(P), "C12:rot:%d:size" % s, "rot allocated for %s operators, permutations has %d" % (nrot, len(P)), where)
-            bad = [i for i, m in enumerate(P)
-                   if ga.mmul(ga.transpose(m), ga.mmul(GSTAR_HEX, m)) != tuple(tuple(Fraction(x) for x in r) for r in GSTAR_HEX)
-                   or ga.det(m) != 1]
-            ctx.check(not bad, "C12:rot:%d:proper" % s,
-                      "B perm[i]^-1 B^-1 is not a proper rotation for i in %s (perm[i] does not preserve the hexagonal "
-                      "reciprocal metric / det != 1)" % bad[:5], where)
-            # pairing: P commutes with diag(s,s,t)  <=>  P[2][0]=P[2][1]=P[0][2]=P[1][2]=0
-            badp = [i for i, m in enumerate(P) if m[2][0] or m[2][1] or m[0][2] or m[1][2]]
-            if kind[3] != "inv":
-                # rot[i] = B X B^-1 pairs with perm[i] only when X.perm[i] = I (X = perm[i] itself or its transpose)
-                X = [m if kind[3] == "plain" else ga.transpose(m) for m in P]
-                noninv = [i for i, (x, m) in enumerate(zip(X, P)) if ga.mmul(x, m) != ga.I3]
-                ctx.check(not noninv, "C12:pair:%d:inverse" % s,
-                          "rot[i] is built from %s instead of inv(perm[i]): it is not the inverse for i in %s, so rot[i].B.perm[i] != B "
-                          "(and rot[i] is not orthogonal)" % ("perm[i]" if kind[3] == "plain" else "perm[i].T", noninv[:6]), where)
-            ctx.check(not badp, "C12:pair:%d" % s,
-                      "perm[%s] mixes the hexagonal plane with c: rot[i].B'.perm[i] != B' for cells other than the unit one"
-                      % badp[:5], where)
-    # cache
+        ctx.check(len(tab) == len(P), "C12:rot:%d:size" % s, "rotations(%d) has %d operators, permutations has %d" % (s, len(tab), len(P)), where)
+        if len(tab) != len(P):
+            continue
+        bad = [i for i, R in enumerate(tab) if not (req(rmul(R, rT(R)), RI3) and rdet(R).equals(1))]
+        ctx.check(not bad, "C12:rot:%d:proper" % s,
+                  "rot[i] is not a proper rotation (R R' = I, det = +1) for i in %s" % bad[:6], where,
+                  sample={"system": NAMES[s], "rot[1]": [[N.short(x) for x in r] for r in tab[min(1, len(tab) - 1)]]} if s == 6 else None)
+        basis = HEX_BASIS if s in (5, 6) else [rmat(b) for b in B_BASIS[s]]
+        badp = [(i, k) for i, R in enumerate(tab) for k, Bm in enumerate(basis)
+                if not req(rmul(R, rmul(Bm, rmat(P[i]))), Bm)]
+        ctx.check(not badp, "C12:pair:%d" % s,
+                  "rot[%d] . B . perm[%d] != B for element %d of the basis of conforming B matrices (the operator applied to the "
+                  "orientation is not the one paired with the permutation of hkl)"
+                  % (badp[0][0] if badp else 0, badp[0][0] if badp else 0, badp[0][1] if badp else 0), where)
+    # cache: the module-level constant, evaluated
     if "ROTATIONS" not in mod.assigns:
         raise AnalysisError("anchor vanished: ROTATIONS in symmetry.py")
-    v = mod.assigns["ROTATIONS"].value
-    okc = False
-    if isinstance(v, ast.BinOp) and isinstance(v.op, ast.Add) and isinstance(v.left, ast.List) and len(v.left.elts) == 1 \
-            and isinstance(v.left.elts[0], ast.Constant) and v.left.elts[0].value is None \
-            and isinstance(v.right, ast.ListComp) and len(v.right.generators) == 1:
-        g = v.right.generators[0]
-        elt = v.right.elt
-        if isinstance(elt, ast.Call) and isinstance(elt.func, ast.Attribute) and elt.func.attr in ("ascontiguousarray", "array", "asarray"):
-            elt = elt.args[0]
-        rng = g.iter
-        okc = (isinstance(elt, ast.Call) and isinstance(elt.func, ast.Name) and elt.func.id == "rotations"
-               and len(elt.args) == 1 and isinstance(elt.args[0], ast.Name) and isinstance(g.target, ast.Name)
-               and elt.args[0].id == g.target.id and not g.ifs
-               and isinstance(rng, ast.Call) and isinstance(rng.func, ast.Name) and rng.func.id == "range"
-               and [getattr(a, "value", None) for a in rng.args] == [1, 8])
+
+    def ipol(name, args, kwargs, node):
+        for pre, m_ in tmods.items():
+            if name.startswith(pre + "."):
+                return Evaluator(m_, inline=True, branch_policy=N.skip_checks_policy).call_function(name[len(pre) + 1:], args, kwargs)
+        return NotImplemented
+    cache = Evaluator(mod, inline=True, import_policy=ipol, branch_policy=N.skip_checks_policy).module_constant("ROTATIONS")
+    okc = isinstance(cache, (list, tuple)) and len(cache) == 8 and cache[0] is None
+    if okc:
+        for s in range(1, 8):
+            A = cache[s] if isinstance(cache[s], Arr) else materialise(cache[s])
+            okc = okc and A is not None and s in rots and A.shape == (len(rots[s]), 3, 3) and \
+                all(scalar(A.data[i][r][c]).equals(rots[s][i][r][c]) for i in range(len(rots[s])) for r in range(3) for c in range(3))
     ctx.check(okc, "C12:cache:ROTATIONS", "ROTATIONS is not [None] + [rotations(i) for i in range(1, 8)]",
               core.loc(mod, mod.assigns["ROTATIONS"]))
     stores = [n for n in ast.walk(mod.tree) if isinstance(n, (ast.Assign, ast.AugAssign))
@@ -195,149 +197,65 @@ def run(ctx):
     analyse_umis(ctx, mod, ufn)
     ctx.not_decided += ["the invariances of the angle multiset (symmetry-equivalent replacement, common rotation, swap) are "
                         "paper consequences of the group axioms, the pairing rule and trace cyclicity"]
-    ctx.assumptions += ["numpy: (rot * M).sum(axis=(1,2)) is the Frobenius product per operator; clip, arccos, arange"]
-    return ("Seven permutation tables extracted and checked exactly (orders 1,2,4,8,6,12,24, unimodular, closed over all "
-            "pairs); rotations() arms recognised as perm' resp. B perm^-1 B^-1 with a hexagonal B and proven proper "
-            "rotations on the tables; pairing identity decided on a basis of conforming B; ROTATIONS cache shape; Umis "
-            "trace formula by E3.")
-
-
-def classify_rot_arm(mod, st, param):
-    body = st.body
-    # transpose form: rot = permutations(p); for i in range(len(rot)): rot[i] = rot[i].T
-    if len(body) == 2 and isinstance(body[0], ast.Assign) and isinstance(body[1], ast.For):
-        a, f = body
-        if isinstance(a.value, ast.Call) and isinstance(a.value.func, ast.Name) and a.value.func.id == "permutations" \
-                and isinstance(a.value.args[0], ast.Name) and a.value.args[0].id == param \
-                and isinstance(a.targets[0], ast.Name):
-            v = a.targets[0].id
-            it = f.iter
-            okit = (isinstance(it, ast.Call) and isinstance(it.func, ast.Name) and it.func.id == "range" and len(it.args) == 1
-                    and isinstance(it.args[0], ast.Call) and isinstance(it.args[0].func, ast.Name) and it.args[0].func.id == "len"
-                    and isinstance(it.args[0].args[0], ast.Name) and it.args[0].args[0].id == v)
-            if okit and len(f.body) == 1 and isinstance(f.body[0], ast.Assign):
-                s = f.body[0]
-                t, val = s.targets[0], s.value
-                i = f.target.id if isinstance(f.target, ast.Name) else None
-                def sub(n):
-                    return (isinstance(n, ast.Subscript) and isinstance(n.value, ast.Name) and n.value.id == v
-                            and isinstance(n.slice, ast.Name) and n.slice.id == i)
-                if sub(t) and ((isinstance(val, ast.Attribute) and val.attr == "T" and sub(val.value)) or
-                               (isinstance(val, ast.Call) and isinstance(val.func, ast.Attribute) and val.func.attr == "transpose"
-                                and ((val.args and sub(val.args[0])) or sub(val.func.value)))):
-                    return ("transpose",)
-    # conjugate form
-    if len(body) == 5 and all(isinstance(b, ast.Assign) for b in body[:4]) and isinstance(body[4], ast.For):
-        a_perm, a_B, a_Binv, a_rot, f = body
-        try:
-            okp = (isinstance(a_perm.value, ast.Call) and a_perm.value.func.id == "permutations" and a_perm.value.args[0].id == param)
-            pv = a_perm.targets[0].id
-            bv = a_B.targets[0].id
-            okB = (isinstance(a_B.value, ast.Call) and isinstance(a_B.value.func, ast.Attribute) and a_B.value.func.attr == "form_b_mat"
-                   and isinstance(a_B.value.func.value, ast.Name) and mod.imports.get(a_B.value.func.value.id) in ("xfab.tools", "xfab.laue"))
-            cell = list(ast.literal_eval(a_B.value.args[0]))
-            biv = a_Binv.targets[0].id
-            okBi = (isinstance(a_Binv.value, ast.Call) and isinstance(a_Binv.value.func, ast.Attribute) and a_Binv.value.func.attr == "inv"
-                    and a_Binv.value.args[0].id == bv)
-            rv = a_rot.targets[0].id
-            shp = ast.literal_eval(a_rot.value.args[0])
-            okr = a_rot.value.func.attr == "zeros" and tuple(shp[1:]) == (3, 3)
-            it = f.iter
-            okit = it.func.id == "range" and it.args[0].func.id == "len" and it.args[0].args[0].id == pv
-            s = f.body[0]
-            i = f.target.id
-            t, val = s.targets[0], s.value
-            okt = t.value.id == rv and t.slice.id == i
-            # dot(B, dot(inv(perm[i]), Binv))
-            d1 = val
-            inner = d1.args[1].args[0]
-            inverted = "plain"
-            pe = inner
-            if isinstance(inner, ast.Call) and getattr(inner.func, "attr", "") == "inv":
-                inverted, pe = "inv", inner.args[0]
-            elif isinstance(inner, ast.Attribute) and inner.attr == "T":
-                inverted, pe = "transpose", inner.value
-            elif isinstance(inner, ast.Call) and getattr(inner.func, "attr", "") == "transpose":
-                inverted, pe = "transpose", (inner.args[0] if inner.args else inner.func.value)
-            okd = (d1.func.attr == "dot" and d1.args[0].id == bv and d1.args[1].func.attr == "dot"
-                   and pe.value.id == pv and pe.slice.id == i and d1.args[1].args[1].id == biv)
-            if okp and okB and okBi and okr and okit and okt and okd and len(f.body) == 1:
-                return ("conjugate", cell, shp[0], inverted)
-        except (AttributeError, IndexError, ValueError, TypeError):
-            return None
-    return None
+    ctx.assumptions += ["numpy: (rot * M).sum(axis=(1,2)) is the Frobenius product per operator; clip, arccos, arange",
+                        "cos / sin of multiples of 15 degrees and the inverse of a constant 3x3 matrix, exact in Q(sqrt 2, sqrt 3, pi)"]
+    return ("permutations(s) and rotations(s) evaluated by E3 for s = 1..7 and outside: seven integer tables checked exactly "
+            "(orders 1,2,4,8,6,12,24, unimodular, closed over all pairs); every rot[i] an exact proper rotation paired with "
+            "perm[i] on a basis of conforming B (hexagonal family in Q(sqrt 3)); ROTATIONS evaluated and compared entry-wise; "
+            "Umis evaluated by E3 on symbolic operators.")
 
 
 def analyse_umis(ctx, mod, fn):
     where = core.loc(mod, fn)
-    params = [a.arg for a in fn.args.args]
-    if len(params) != 3:
+    if len(fn.args.args) != 3:
         raise AnalysisError("Umis signature changed")
-    u1, u2, cs = params
-    body = core.body_wo_doc(fn)
-    assigns = {}
-    stores = {}
-    ret = None
-    for st in body:
-        if isinstance(st, ast.Assign) and isinstance(st.targets[0], ast.Name):
-            assigns[st.targets[0].id] = st
-        elif isinstance(st, ast.Assign) and isinstance(st.targets[0], ast.Subscript):
-            stores[core.unparse(st.targets[0]).replace(" ", "")] = st
-        elif isinstance(st, ast.Return):
-            ret = st
-    if "rot" not in assigns or "lengths" not in assigns or ret is None:
-        raise AnalysisError("Umis: expected the assignments rot, lengths and a return")
-    r = assigns["rot"].value
-    okrot = (isinstance(r, ast.Subscript) and isinstance(r.value, ast.Name) and r.value.id == "ROTATIONS"
-             and isinstance(r.slice, ast.Name) and r.slice.id == cs)
-    ctx.check(okrot, "C12:cache:Umis-index", "Umis does not take rot = ROTATIONS[crystal_system]", core.loc(mod, assigns["rot"]))
-    # E3 on `lengths`
-    ev = Evaluator(mod, inline=set())
-    rot = sym_array("rot", (2, 3, 3))
     U1, U2 = sym_array("U1", (3, 3)), sym_array("U2", (3, 3))
-    got = ev.eval(assigns["lengths"].value, {"rot": rot, u1: U1, u2: U2})
-    G = got if isinstance(got, Arr) else materialise(got)
-    ok = G is not None and G.shape == (2,)
-    if ok:
-        for k in range(2):
-            want = Rat.const(0)
-            for i in range(3):
-                for j in range(3):
-                    m = sum((Rat.atom("U1[%d,%d]" % (q, i)) * Rat.atom("U2[%d,%d]" % (q, j)) for q in range(3)), Rat.const(0))
-                    want = want + Rat.atom("rot[%d,%d,%d]" % (k, i, j)) * m
-            want = want / 2 - Rat.const(Fraction(1, 2))
-            ok = ok and scalar(G.data[k]).equals(want)
-    ctx.check(ok, "C12:umis:trace-formula",
-              "lengths is not 0.5*sum_ij rot_k[i,j]*(U1'U2)[i,j] - 0.5 = (tr(U1' U2 rot_k') - 1)/2", core.loc(mod, assigns["lengths"]),
-              sample={"expression": core.unparse(assigns["lengths"].value)})
-    # column stores
-    mname = ret.value.id if isinstance(ret.value, ast.Name) else None
-    s0 = stores.get("%s[:,0]" % mname)
-    s1 = stores.get("%s[:,1]" % mname)
-    ok0 = False
-    if s0 is not None:
-        v = s0.value
-        ok0 = (isinstance(v, ast.Call) and isinstance(v.func, ast.Attribute) and v.func.attr == "arange" and len(v.args) == 1
-               and isinstance(v.args[0], ast.Call) and isinstance(v.args[0].func, ast.Name) and v.args[0].func.id == "len"
-               and isinstance(v.args[0].args[0], ast.Name) and v.args[0].args[0].id == "rot")
-    ctx.check(ok0, "C12:umis:index-column", "column 0 is not arange(len(rot))", where)
-    ok1 = False
-    if s1 is not None:
-        ev2 = Evaluator(mod, inline=set())
-        val = ev2.eval(s1.value, {"lengths": Opaque("lengths")})
-        try:
-            want = Rat.atom("arccos(lengths.clip(-1,1))") * 180 / N.PI
-            ok1 = scalar(val).equals(want)
-        except AnalysisError:
-            ok1 = False
-    ctx.check(ok1, "C12:umis:angle-column",
-              "column 1 is not arccos(lengths.clip(-1, 1))*180/pi (degrees in [0, 180])", where)
-    # the array has one row per operator and two columns
-    a = assigns.get(mname)
-    oksh = False
-    if a is not None and isinstance(a.value, ast.Call) and isinstance(a.value.func, ast.Attribute) \
-            and a.value.func.attr in ("empty", "zeros") and a.value.args:
-        shp = a.value.args[0]
-        oksh = (isinstance(shp, ast.Tuple) and len(shp.elts) == 2 and core.unparse(shp.elts[0]).replace(" ", "") == "len(rot)"
-                and isinstance(shp.elts[1], ast.Constant) and shp.elts[1].value == 2)
+    table = [None] + [sym_array("rot%d" % s_, (2, 3, 3)) for s_ in range(1, 8)]
+    results = {}
+    for s_ in range(1, 8):
+        ev = Evaluator(mod, inline=True, branch_policy=N.skip_checks_policy)
+        ev._modconst = {"ROTATIONS": table}
+        out = ev.call_function("Umis", [U1, U2, Rat.const(s_)])
+        results[s_] = out if isinstance(out, Arr) else materialise(out)
+    oksh = all(A is not None and A.shape == (2, 2) for A in results.values())
     ctx.check(oksh, "C12:umis:shape", "result array is not (len(rot), 2)", where)
+    if not oksh:
+        return
+
+    def length(s_, k):
+        want = Rat.const(0)
+        for i in range(3):
+            for j in range(3):
+                m = sum((Rat.atom("U1[%d,%d]" % (q, i)) * Rat.atom("U2[%d,%d]" % (q, j)) for q in range(3)), Rat.const(0))
+                want = want + Rat.atom("rot%d[%d,%d,%d]" % (s_, k, i, j)) * m
+        return want / 2 - Rat.const(Fraction(1, 2))
+    ok0 = all(scalar(results[s_].data[k][0]).equals(Rat.const(k)) for s_ in results for k in range(2))
+    ctx.check(ok0, "C12:umis:index-column", "column 0 is not arange(len(rot))", where)
+    # which operators, which trace: read the argument of the clip / arccos
+    from xfabsa.poly import atom_info
+    idx_ok, trace_ok, angle_ok = True, True, True
+    for s_ in results:
+        for k in range(2):
+            v = scalar(results[s_].data[k][1])
+            rad = v * N.PI / 180
+            info = atom_info(rad)
+            if info is None or info[0] != "arccos":
+                angle_ok = False
+                continue
+            inner = atom_info(info[1][0])
+            if inner is None or inner[0] != "clip" or not (inner[1][1].equals(-1) and inner[1][2].equals(1)):
+                angle_ok = False
+                continue
+            got = inner[1][0]
+            if not got.equals(length(s_, k)):
+                # right formula on another crystal system's operators?
+                if any(got.equals(length(o_, k)) for o_ in results if o_ != s_):
+                    idx_ok = False
+                else:
+                    trace_ok = False
+    ctx.check(idx_ok, "C12:cache:Umis-index", "Umis does not take rot = ROTATIONS[crystal_system]", where)
+    ctx.check(trace_ok, "C12:umis:trace-formula",
+              "lengths is not 0.5*sum_ij rot_k[i,j]*(U1'U2)[i,j] - 0.5 = (tr(U1' U2 rot_k') - 1)/2", where,
+              sample={"angle[0]": N.short(scalar(results[1].data[0][1]), 200)})
+    ctx.check(angle_ok, "C12:umis:angle-column",
+              "column 1 is not arccos(lengths.clip(-1, 1))*180/pi (degrees in [0, 180])", where)
